@@ -207,6 +207,34 @@ int conf_tree_get(const char *path, const unsigned char **data, size_t *len)
     return 0;
 }
 
+/* /cfg/d, the directory %dirscan() is pointed at: two small files and a sub-directory, plus -- when the plan says so --
+ * enough long-named regular files that the listing (each name followed by a blank) is exactly dir.total bytes long */
+void conf_fill_dir(const plan_t *p)
+{
+    long total = plan_get(p, "dir.total", 0), nl = plan_get(p, "dir.namelen", 255);
+    int idx = 0;
+    simfs_add_dir("/cfg"); simfs_add_dir("/cfg/d");
+    simfs_add_file("/cfg/d/one", "1", 1, 0644); simfs_add_file("/cfg/d/two", "2", 1, 0644); simfs_add_dir("/cfg/d/dir");
+    if (total <= 0) return;
+    if (nl < 100) nl = 100;
+    if (nl > 255) nl = 255;
+    total -= 8;                                        /* "one " and "two " */
+    while (total >= 2 && idx < 400) {
+        char path[300 + 16];
+        long l = total - 1 < nl ? total - 1 : nl;      /* this name takes l + 1 bytes of the listing */
+        int n;
+        if (total - (l + 1) == 1 && l > 5) l--;          /* a remainder of 1 cannot be filled by any name */
+        n = snprintf(path, sizeof(path), "/cfg/d/");
+        if (l >= 5) { n += snprintf(path + n, sizeof(path) - (size_t)n, "f%03d", idx); memset(path + n, 'n', (size_t)(l - 4)); n += (int)(l - 4); }
+        else { memset(path + n, 'z', (size_t)l); n += (int)l; }
+        path[n] = 0;
+        simfs_add_file(path, "x", 1, 0644);
+        total -= l + 1;
+        idx++;
+    }
+    probe_hit("big_directory");
+}
+
 uint64_t conf_trace_digest(int from)
 {
     uint64_t h = 1469598103934665603ULL;
